@@ -113,166 +113,6 @@ func zzC12HeapStep() {
 	}
 }
 
-type zzCallRec struct {
-	fu          Future
-	due         time.Time
-	started     int
-	cancelEarly bool
-	cancelled   bool
-	done        chan struct{}
-}
-
-// real worker goroutines under the engine's scheduler, symbolic clock, timers as environment
-func zzC12Sched() {
-	NC := vParam("NC")
-	idle := vInt64("idle")
-	vAssume(idle >= 1 && idle <= zzMaxD)
-	cc.idleTimeout = time.Duration(idle)
-	cc.maxWorkers = vConcrete(vRange("maxWorkers", vParam("MWMIN"), vParam("MW")))
-	vGuardedBy(cc.futures, &cc.lock)
-	vGuardedBy(&cc.watchers, &cc.lock)
-	recs := make([]*zzCallRec, NC)
-	for i := 0; i < NC; i++ {
-		r := &zzCallRec{done: make(chan struct{})}
-		recs[i] = r
-		d := vInt64("delay")
-		vAssume(d >= -8 && d <= zzMaxD)
-		t0 := time.Now()
-		r.due = t0.Add(time.Duration(d))
-		r.fu = Call(func() {
-			t := time.Now()
-			r.started++
-			vAssert(r.started == 1, "a scheduled function was started more than once")
-			vAssert(!t.Before(r.due), "a scheduled function was started earlier than its delay after the call")
-			vAssert(!r.cancelEarly, "a function was started although Cancel had returned before it was due")
-			vAssert(cc.watchers >= 1 && cc.watchers <= cc.maxWorkers, "worker count outside [1, maxWorkers] while a callback runs")
-			close(r.done)
-		}, time.Duration(d))
-		// optionally cancel one of the futures scheduled so far (possibly repeatedly, possibly after it fired)
-		if vParam("CANCEL") == 1 && vChoose("cancel", 2) == 1 {
-			j := vChoose("which", i+1)
-			recs[j].fu.Cancel()
-			t := time.Now()
-			recs[j].cancelled = true
-			if t.Before(recs[j].due) && recs[j].started == 0 {
-				recs[j].cancelEarly = true
-			}
-		}
-	}
-	vReach("script-done")
-	// C13: every future that was not cancelled is eventually started (otherwise: deadlock)
-	for _, r := range recs {
-		if !r.cancelled {
-			<-r.done
-		}
-	}
-	vReach("all-fired")
-	// C13: with nothing pending the package winds down to zero workers
-	vWaitOthers()
-	cc.lock.Lock()
-	vAssert(cc.watchers == 0, "worker count is not zero after all workers exited")
-	vAssert(cc.futures.Len() == 0, "futures left in the queue at quiescence")
-	cc.lock.Unlock()
-	for _, r := range recs {
-		vAssert(r.started <= 1, "a scheduled function was started more than once")
-		if r.cancelEarly {
-			vAssert(r.started == 0, "a function cancelled before it was due was started")
-		}
-		if !r.cancelled {
-			vAssert(r.started == 1, "a live future never fired")
-		}
-	}
-	// and it starts up again on the next Call
-	if vParam("RESTART") == 1 {
-		again := make(chan struct{})
-		Call(func() { close(again) }, time.Duration(1))
-		<-again
-	}
-	vReach("restarted")
-}
-
-// C13: wind-down. A worker with nothing to do returns after at most two idle timer expiries and the worker
-// count drops to zero; a Call with no worker alive starts exactly one.
-func zzC13WindDown() {
-	idle := vInt64("idle")
-	vAssume(idle >= 1 && idle <= zzMaxD)
-	cc.idleTimeout = time.Duration(idle)
-	cc.maxWorkers = []int{1, 2, 10}[vChoose("maxWorkers", 3)]
-	vAssert(cc.watchers == 0 && cc.futures.Len() == 0, "package does not start idle")
-	fired := make(chan struct{})
-	d := vInt64("delay")
-	vAssume(d >= -8 && d <= zzMaxD)
-	Call(func() {
-		vAssert(cc.watchers == 1, "a Call with no worker alive must start exactly one worker")
-		close(fired)
-	}, time.Duration(d))
-	<-fired
-	vReach("fired")
-	vWaitOthers()
-	vAssert(cc.watchers == 0, "worker count is not zero after the idle worker exited")
-	vReach("wound-down")
-	// and it starts up again on the next Call
-	again := make(chan struct{})
-	Call(func() {
-		vAssert(cc.watchers == 1, "a Call after wind-down must start exactly one worker")
-		close(again)
-	}, time.Duration(d))
-	<-again
-	vReach("restarted")
-}
-
-// C13: a short delay scheduled while the dispatcher sleeps towards a distant one is not served late.
-// Prompt environment: time passes only when a timer fires, and a timer fires exactly when due (+1 ns).
-func zzC13Prompt() {
-	cc.idleTimeout = time.Duration(zzMaxD)
-	cc.maxWorkers = []int{1, 2}[vChoose("maxWorkers", 2)]
-	far := vInt64("far")
-	near := vInt64("near")
-	vAssume(near >= 0 && near <= zzMaxD && far >= 0 && far <= zzMaxD)
-	type rec struct {
-		due  time.Time
-		done chan struct{}
-	}
-	mk := func(d int64) *rec {
-		r := &rec{due: time.Now().Add(time.Duration(d)), done: make(chan struct{})}
-		Call(func() {
-			late := time.Now().Sub(r.due)
-			vAssert(late >= 0, "started early")
-			vAssert(late <= 16, "a future was started much later than due although every timer fired on time and callbacks return at once")
-			close(r.done)
-		}, time.Duration(d))
-		return r
-	}
-	if vParam("SCEN") == 1 {
-		// a burst of two due futures brings up two workers, which then go idle; a short future scheduled then
-		// must still be served on time (by whichever worker stays)
-		cc.maxWorkers = 2
-		cc.idleTimeout = time.Duration(1 << 30)
-		p1, p2 := mk(0), mk(0)
-		<-p1.done
-		<-p2.done
-		vSettle()
-		vAssume(near <= 1<<20)
-		c := mk(near)
-		<-c.done
-		vReach("all-fired")
-		return
-	}
-	a := mk(far)
-	vSettle() // the dispatcher is now asleep towards the first future
-	b := mk(near)
-	var c *rec
-	if vChoose("burst", 2) == 1 {
-		c = mk(near) // a burst: two futures due at the same instant
-	}
-	<-a.done
-	<-b.done
-	if c != nil {
-		<-c.done
-	}
-	vReach("all-fired")
-}
-
 // C12: the worker loop under arbitrary interference. The real watcher runs as a goroutine; every time it is
 // parked the shared queue is replaced by a fresh arbitrary one (any number of other callers and workers may have
 // acted meanwhile), the clock moves on, and either its timer fires or a wake-up token arrives. Whatever it
